@@ -1,5 +1,6 @@
 import Pokerface.Proofs.EngineHop
 import Pokerface.Proofs.EngineReach
+import Pokerface.Proofs.GeneratedLogicHop
 /-
   C07 — A hand can be resumed from its serialized state at any wait point.
 
@@ -81,6 +82,12 @@ def backendCall (s : Game) (op : Op) : Except Err Game :=
   match s.json.step op with
   | (g', none) => .ok g'.json
   | (_, some e) => .error e
+
+/-- K1 (regenerated logic, group "Hop"): `backendCall` is the model `Hop.backendModel` which
+    `GeneratedLogic.hopBackend_model` proves equal to EVERY method of table/native_backend.go as translated from the
+    source on this run (clone in → `NewGameFromState` → the one operation of the same name → clone out, error passed
+    through); `GeneratedLogic.hopBackend…_eq` state the same for all interpretations of `cloneState` (aliasing included). -/
+theorem backendCall_generated (s : Game) (op : Op) : backendCall s op = GeneratedLogic.Hop.backendModel s op := rfl
 
 /-- a driver threading the state through the stateless backend, stopping at the first error -/
 def backendRun (s : Game) (ops : List Op) : Except Err Game := ops.foldlM backendCall s
